@@ -135,6 +135,28 @@ func (prog *Program) slotType(cls string, ret bool, j int) types.Type {
 			}
 		}
 	}
+	if strings.HasPrefix(cls, "(") && !strings.Contains(cls, ":") {
+		// a method of a loaded package, named as go/ssa prints it: (*pkgpath.T).M — slot 0 is the receiver
+		if prog.methodSigs == nil {
+			prog.methodSigs = map[string]*types.Signature{}
+			for fn := range ssautil.AllFunctions(prog.SSA) {
+				if fn.Signature != nil && fn.Signature.Recv() != nil {
+					prog.methodSigs[fn.String()] = fn.Signature
+				}
+			}
+		}
+		if sig, ok := prog.methodSigs[cls]; ok {
+			if ret {
+				if j < sig.Results().Len() {
+					return sig.Results().At(j).Type()
+				}
+			} else if j == 0 {
+				return sig.Recv().Type()
+			} else if j-1 < sig.Params().Len() {
+				return sig.Params().At(j - 1).Type()
+			}
+		}
+	}
 	if strings.HasPrefix(cls, "yaml.Unmarshal:") {
 		// see mYamlUnmarshal: (string) -> (error, decoded value)
 		switch {
